@@ -2,13 +2,14 @@
 //!   d : one civil day: day number, weekday by three routes, day pillar by four routes, its stem and branch
 use tyme4rs::tyme::lunar::LunarDay;
 use tyme4rs::tyme::solar::SolarDay;
+use tyme4rs::tyme::Tyme;
 
 use crate::c01::ymd;
 use crate::daywalk::*;
 use crate::lib_util::*;
 use crate::windows::*;
 
-fn line(d: &SolarDay, first: bool, _prev: Option<&SolarDay>) -> String {
+fn line(d: &SolarDay, first: bool, prev: Option<&SolarDay>) -> String {
   let (y, m, dd) = ymd(d);
   let j = jdn(d);
   let w = catch(|| d.get_week().get_index() as i64).unwrap_or(-1);
@@ -22,8 +23,25 @@ fn line(d: &SolarDay, first: bool, _prev: Option<&SolarDay>) -> String {
   let p2 = catch_iso(|| d.get_sixty_cycle_day().get_sixty_cycle().get_index() as i64).unwrap_or(-1);
   let p3 = if ly >= 0 { catch_iso(|| LunarDay::from_ymd(ly as isize, lm as isize, ldd as usize).get_sixty_cycle().get_index() as i64).unwrap_or(-1) } else { -1 };
   let p4 = ld.as_ref().and_then(|l| catch_iso(|| l.get_sixty_cycle_day().get_sixty_cycle().get_index() as i64)).unwrap_or(-1);
+  // fifth route: the previous day's lunar day, already asked for its own views (which fills its per-value memos),
+  // stepped by one; -2 = no previous day in this segment
+  let stepped = prev.and_then(|q| catch_iso(|| {
+    let l = q.get_lunar_day();
+    let _ = catch(|| l.get_sixty_cycle_day());
+    let _ = catch(|| l.get_solar_day());
+    l.next(1)
+  }));
+  let (p5, p6, w5) = match (prev, stepped.as_ref()) {
+    (None, _) => (-2, -2, -2),
+    (Some(_), None) => (-1, -1, -1),
+    (Some(_), Some(l)) => (
+      catch_iso(|| l.get_sixty_cycle_day().get_sixty_cycle().get_index() as i64).unwrap_or(-1),
+      catch_iso(|| l.get_sixty_cycle().get_index() as i64).unwrap_or(-1),
+      catch_iso(|| l.get_week().get_index() as i64).unwrap_or(-1),
+    ),
+  };
   Ev::new("d").b("s", first).i("y", y).i("m", m).i("d", dd).i("j", j).i("w", w).i("w2", w2).i("w3", w3)
-    .i("p", p).i("p2", p2).i("p3", p3).i("p4", p4).i("ps", ps).i("pb", pb).i("ld", ldd).done()
+    .i("p", p).i("p2", p2).i("p3", p3).i("p4", p4).i("p5", p5).i("p6", p6).i("w5", w5).i("ps", ps).i("pb", pb).i("ld", ldd).done()
 }
 
 pub fn run(ctx: &Ctx) -> usize {
